@@ -65,7 +65,7 @@ CLAIMED = {
              ref="DESIGN.md 4 C06"),
  "C07": dict(technique="Kani contracts on the mode of operation with init/tf/of as uninterpreted functions + call log",
              text="Compression function == specification P and Q (see note); IV = output size big-endian, padding with the 64-bit big-endian block count including padding blocks for every 64-bit counter value, one-vs-two final blocks at the <=8-bytes-left boundary, output transformation and truncation windows, reset of the truncated variants.",
-             note="Compression function: one round of P||Q (512) and submix after the spec-derived pre-shuffle (1024, P and Q shift vectors) are proved equal to AddRoundConstant/SubBytes/ShiftBytes/MixBytes of the specification for EVERY byte substitution table (AESENCLAST modelled as ShiftRows, table lookup, xor key: trusted instruction model; the specification's S-box is the AES S-box); tf512/of512/tf1024/of1024/init wiring with the round layer as uninterpreted function against h ^ P(h^m) ^ Q(m) and trunc(P(h)^h); mul2 and the matrix transposes by leaf contracts. Not covered: the three #[target_feature] wrapper modules and the lazy_static function-pointer table that selects among them (they all forward to the verified *_impl bodies).",
+             note="Compression function: one round of P||Q (512) and submix after the spec-derived pre-shuffle (1024, P and Q shift vectors) are proved equal to AddRoundConstant/SubBytes/ShiftBytes/MixBytes of the specification for EVERY byte substitution table (AESENCLAST modelled as ShiftRows, table lookup, xor key: trusted instruction model; the specification's S-box is the AES S-box); tf512/of512/tf1024/of1024/init wiring with the round layer as uninterpreted function against h ^ P(h^m) ^ Q(m) and trunc(P(h)^h); mul2 and the matrix transposes by leaf contracts. The #[target_feature] wrapper modules and the lazy_static function-pointer table selected from CPUID are proved to forward to the matching *_impl with unchanged arguments (CPUID model: SSE2-only, SSSE3, AES).",
              ref="DESIGN.md 4 C07"),
  "C08": dict(technique="Kani contracts: abstract-view contract of update ('the stream view grows by exactly the bytes given') from an arbitrary state for all 15 hash types; clone independence; reset/default equality",
              text="update compresses exactly the complete blocks of pending++data in order with the right counters and keeps the remainder; a hasher's state is a function of the stream view, so every partition gives the same state; clone and reset contracts.",
